@@ -414,6 +414,8 @@ def add_leg(a, axis=-1, s=-1, t=None, leg=None) -> 'Tensor':
     if a.isdiag:
         raise YastnError('Cannot add axis to a diagonal tensor.')
 
+    axis = axis % (a.ndim + 1)
+
     if leg is not None:
         if len(leg.t) != 1 or leg.D[0] != 1:
             raise YastnError("Only the leg of dimension one can be added to the tensor.")
@@ -432,7 +434,6 @@ def add_leg(a, axis=-1, s=-1, t=None, leg=None) -> 'Tensor':
         raise YastnError('Signature of the new axis should be 1 or -1.')
     s = int(s)
 
-    axis = axis % (a.ndim + 1)
     mfs = a.mfs[:axis] + ((1,),) + a.mfs[axis:]
 
     uaxis = sum(a.mfs[ii][0] for ii in range(axis))  # unpack mfs
